@@ -7,6 +7,7 @@ import Glas.Model.ServerCmd
 import Glas.Model.ProjectCmd
 import Glas.Model.DbCmd
 import Glas.Model.ConcCmd
+import Glas.Model.UnionFindCmd
 /-! The executable model behind a one-line-in, one-line-out protocol (tab-separated fields). -/
 open Glas
 
@@ -38,7 +39,10 @@ def dispatch (line : String) : String :=
                 | none =>
                   match ConcCmd.run args with
                   | some r => r
-                  | none => "bad-op"
+                  | none =>
+                    match UFCmd.run args with
+                    | some r => r
+                    | none => "bad-op"
 
 partial def loop (h : IO.FS.Stream) (out : IO.FS.Stream) : IO Unit := do
   let line ← h.getLine
